@@ -407,17 +407,17 @@ def run(ctx) -> None:
     else:
         r.violation("C11.R6", af.qual, f"reduce(lambda r, f: f.apply_on_rule(r) ..., filters, rule) for rule in self.rules: rules become {got6}", f"expected {want6}: apply_filters no longer folds each rule through all filters", af.loc)
     lr = prog.func("sigma.collection.SigmaCollection.load_ruleset")
-    fy = [c for c in walk_no_nested(lr.node) if isinstance(c, ast.Call) and call_name(c).endswith("from_yaml")]
-    okc = any(any(kw.arg == "collect_filters" and isinstance(kw.value, ast.Constant) and kw.value.value is True for kw in c.keywords) for c in fy)
-    if okc:
+    # load_ruleset interpreted (sa.tabulate, ClassProxy) on two stand-in files (shared with C09.R3)
+    from .standins import load_ruleset_outcome
+    o6 = load_ruleset_outcome(ctx)
+    if o6.raised is None and len(o6.per_file) == 2 and all(d_.get("collect_filters") is True for d_ in o6.per_file):
         r.ok("C11.R6", lr.qual, "per-file collections built with collect_filters=True", lr.loc)
     else:
-        r.violation("C11.R6", lr.qual, "SigmaCollection.from_yaml(..., collect_filters=True, ...)", "per-file collections apply filters before the rule set is merged: a filter in one file never reaches rules of other files (or is applied twice)", lr.loc)
-    mg = [c for c in walk_no_nested(lr.node) if isinstance(c, ast.Call) and call_name(c).endswith("merge")]
-    if mg and not any(kw.arg == "collect_filters" and isinstance(kw.value, ast.Constant) and kw.value.value is True for c in mg for kw in c.keywords):
+        r.violation("C11.R6", lr.qual, "SigmaCollection.from_yaml(..., collect_filters=True, ...)", f"per-file collections apply filters before the rule set is merged: a filter in one file never reaches rules of other files (or is applied twice) — per-file calls {[d_.get('collect_filters', '<default>') for d_ in o6.per_file] if o6.raised is None else o6.raised}", lr.loc)
+    if o6.raised is None and len(o6.merge) == 1 and o6.merge[0].get("collect_filters", False) is not True and o6.merge[0].get("collections") == ["collection-1", "collection-2"]:
         r.ok("C11.R6", lr.qual, "merged collection applies the collected filters", lr.loc)
     else:
-        r.violation("C11.R6", lr.qual, "cls.merge(sigma_collections, ...)", "merged collection does not apply the collected filters", lr.loc)
+        r.violation("C11.R6", lr.qual, "cls.merge(sigma_collections, ...)", f"merged collection does not apply the collected filters (merge calls {o6.merge})", lr.loc)
     # ---------------------------------------------------------------- R7 (shared with C02.R4)
     from . import c02
     before = len(r.obligations)
